@@ -24,6 +24,8 @@ use vcore::model::conditions as mc;
 use vcore::model::treehash;
 use vcore::{vensure, vfail, Fnv, Src};
 
+pub const SIG_DROPS_EXTRA: &str = "C19:ff:rewrite-drops-extra-solution-elements";
+
 // ---- paths into the curried puzzle `(a (q . MOD) (c (q . STRUCT) (c (q . INNER) 1)))`
 const PUZ_MOD: &[u8] = &[R, L, R];
 const PUZ_STRUCT: &[u8] = &[R, R, L, R, L, R];
@@ -686,13 +688,31 @@ pub fn case_ff(bytes: &[u8], ctx: &mut Ctx) -> CaseResult {
                 let n = e.t.atom(v);
                 exp = replace_at(&mut e.t, exp, p, n).expect("genuine solution has the three positions");
             }
-            vensure!(
-                e.t.serialize(exp) == t2.serialize(r2),
-                "C19:ff:rewrite-changes-more-than-lineage-and-amount",
-                "original solution {} vs rewritten {}: they differ outside lineage parent, parent amount and coin amount",
-                g.ht.t.render(g.solution),
-                t2.render(r2)
-            );
+            if e.t.serialize(exp) != t2.serialize(r2) {
+                // is the only further difference that elements after the three
+                // of the solution list / of the lineage proof were dropped?
+                let (sol_items, _) = e.t.list_items(exp);
+                let (lin_items, _) = e.t.list_items(sol_items[0]);
+                let lin3 = e.t.list(&lin_items[..3.min(lin_items.len())]);
+                let trunc = e.t.list(&[lin3, sol_items[1], sol_items[2]]);
+                if e.t.serialize(trunc) == t2.serialize(r2) {
+                    ctx.known_or_fail(SIG_DROPS_EXTRA, || {
+                        format!(
+                            "original solution {} vs rewritten {}: besides lineage parent, parent amount and coin amount, the rewrite drops the elements that follow the first three of the solution list / lineage proof (the original spend of coin runs: {})",
+                            g.ht.t.render(g.solution),
+                            t2.render(r2),
+                            orig.is_ok()
+                        )
+                    })?;
+                } else {
+                    vfail!(
+                        "C19:ff:rewrite-changes-more-than-lineage-and-amount",
+                        "original solution {} vs rewritten {}: they differ outside lineage parent, parent amount and coin amount",
+                        g.ht.t.render(g.solution),
+                        t2.render(r2)
+                    );
+                }
+            }
             if !plain_shape {
                 ctx.label("ff:rewritten:unusual-solution-shape");
             }
